@@ -413,7 +413,9 @@ def vSel (s : VSchema) (vars : List VarDef) (parent : Str) : Sel → List VErr
     if (s.get? t).isNone then [.unknownFragmentType t]
     else if !s.isComposite t then [.fragmentOnNonComposite t]
     else
-      (if disjoint (s.possibleTypes parent) (s.possibleTypes t) then [.impossibleFragment parent t] else []) ++
+      -- §5.5.2.3; a fragment on the parent type itself always applies (an interface without
+      -- implementing types has no possible type at all)
+      (if t != parent && disjoint (s.possibleTypes parent) (s.possibleTypes t) then [.impossibleFragment parent t] else []) ++
       vDirs s vars dirs ++ vSelList s vars t sub
 def vSelList (s : VSchema) (vars : List VarDef) (parent : Str) : SelList → List VErr
   | .nil => []
